@@ -55,8 +55,30 @@ mod cli {
                     pre_empt();
                     ::std::fs::File::open(path).map(File)
                 }
+                pub fn create_new<P: AsRef<Path>>(path: P) -> io::Result<File> {
+                    pre_empt();
+                    ::std::fs::OpenOptions::new().write(true).create_new(true).open(path).map(File)
+                }
                 pub fn sync_all(&self) -> io::Result<()> {
+                    pre_empt();
                     self.0.sync_all()
+                }
+                pub fn sync_data(&self) -> io::Result<()> {
+                    pre_empt();
+                    self.0.sync_data()
+                }
+                pub fn set_len(&self, size: u64) -> io::Result<()> {
+                    pre_empt();
+                    self.0.set_len(size)
+                }
+                pub fn metadata(&self) -> io::Result<::std::fs::Metadata> {
+                    self.0.metadata()
+                }
+                pub fn try_clone(&self) -> io::Result<File> {
+                    self.0.try_clone().map(File)
+                }
+                pub fn set_permissions(&self, perm: ::std::fs::Permissions) -> io::Result<()> {
+                    self.0.set_permissions(perm)
                 }
             }
             impl io::Write for File {
@@ -67,6 +89,67 @@ mod cli {
                 }
                 fn flush(&mut self) -> io::Result<()> {
                     io::Write::flush(&mut self.0)
+                }
+            }
+            impl io::Write for &File {
+                fn write(&mut self, buf: &[u8]) -> io::Result<usize> {
+                    pre_empt();
+                    let n = short(buf.len());
+                    io::Write::write(&mut &self.0, &buf[..n])
+                }
+                fn flush(&mut self) -> io::Result<()> {
+                    io::Write::flush(&mut &self.0)
+                }
+            }
+            impl io::Seek for File {
+                fn seek(&mut self, pos: io::SeekFrom) -> io::Result<u64> {
+                    io::Seek::seek(&mut self.0, pos)
+                }
+            }
+            impl ::std::fmt::Debug for File {
+                fn fmt(&self, f: &mut ::std::fmt::Formatter) -> ::std::fmt::Result {
+                    self.0.fmt(f)
+                }
+            }
+            impl ::std::os::unix::io::AsRawFd for File {
+                fn as_raw_fd(&self) -> ::std::os::unix::io::RawFd {
+                    self.0.as_raw_fd()
+                }
+            }
+            /// `OpenOptions` whose `open` yields the simulated `File`
+            #[derive(Clone, Debug)]
+            pub struct OpenOptions(::std::fs::OpenOptions);
+            impl OpenOptions {
+                pub fn new() -> OpenOptions {
+                    OpenOptions(::std::fs::OpenOptions::new())
+                }
+                pub fn read(&mut self, v: bool) -> &mut OpenOptions {
+                    self.0.read(v);
+                    self
+                }
+                pub fn write(&mut self, v: bool) -> &mut OpenOptions {
+                    self.0.write(v);
+                    self
+                }
+                pub fn append(&mut self, v: bool) -> &mut OpenOptions {
+                    self.0.append(v);
+                    self
+                }
+                pub fn truncate(&mut self, v: bool) -> &mut OpenOptions {
+                    self.0.truncate(v);
+                    self
+                }
+                pub fn create(&mut self, v: bool) -> &mut OpenOptions {
+                    self.0.create(v);
+                    self
+                }
+                pub fn create_new(&mut self, v: bool) -> &mut OpenOptions {
+                    self.0.create_new(v);
+                    self
+                }
+                pub fn open<P: AsRef<Path>>(&self, path: P) -> io::Result<File> {
+                    pre_empt();
+                    self.0.open(path).map(File)
                 }
             }
             impl io::Read for File {
